@@ -6,6 +6,9 @@ use grafeo_core::index::vector::{brute_force_knn, brute_force_knn_filtered, comp
 fn no_simd() -> bool { false }
 fn fin(bound: f32) -> f32 { let x: f32 = kani::any(); kani::assume(x.is_finite() && x >= -bound && x <= bound); x }
 
+/// the plain definition of the two metrics decided here, dimension 1, evaluated independently of the code under test
+fn def_dist(metric: DistanceMetric, q: f32, v: f32) -> f32 { match metric { DistanceMetric::Manhattan => 0.0f32 + (q - v).abs(), DistanceMetric::DotProduct => -(0.0f32 + q * v), _ => f32::NAN } }
+
 macro_rules! knn_h {
     ($name:ident, $metric:expr, $unwind:expr) => {
         #[kani::proof]
@@ -21,7 +24,7 @@ macro_rules! knn_h {
             let res = brute_force_knn(items.iter().copied(), &q, k, $metric);
             let want = if k < 3 { k } else { 3 };
             assert!(res.len() == want, "wrong number of neighbours");
-            let d = [compute_distance(&q, &v[0], $metric), compute_distance(&q, &v[1], $metric), compute_distance(&q, &v[2], $metric)];
+            let d = [def_dist($metric, q[0], v[0][0]), def_dist($metric, q[0], v[1][0]), def_dist($metric, q[0], v[2][0])];
             let mut used = [false; 3];
             let mut i = 0;
             while i < res.len() {
@@ -51,7 +54,7 @@ macro_rules! knn_h {
 //@ encodes: brute_force_knn, compute_distance, simd::{compute_distance_simd,manhattan_distance_simd,manhattan_distance_scalar}, slice::sort_by
 //@ symbolic: 3 one-dimensional vectors and the query (finite f32, |x| <= 2^20), k in 0..=4
 //@ bound: n = 3, dim = 1, metric Manhattan
-//@ oracle: at most k distinct ids from the index, each with its true distance (bitwise), sorted ascending, min(k,n) of them, no omitted vector strictly closer than the last returned
+//@ oracle: at most k distinct ids from the index, each with its true distance (bitwise equal to the plain definition, computed independently of compute_distance), sorted ascending, min(k,n) of them, no omitted vector strictly closer than the last returned
 knn_h!(c18_knn_exact_manhattan, DistanceMetric::Manhattan, 6);
 // (no Euclidean/Cosine harness: CBMC models f32::sqrt as a nondeterministic function, two calls with the same
 // argument may differ, so 'the reported distance is the true distance' produced a spurious counterexample)
@@ -136,4 +139,24 @@ fn c18_knn_filtered_never_returns_removed() {
     let mut i = 0; while i < res.len() { assert!(res[i].0.as_u64() != removed, "a removed vector was returned"); i += 1; }
     kani::cover!(res.len() == 2);
     std::mem::forget(res);
+}
+
+//@ property: C18
+//@ tier: quick
+//@ cap_s: 600
+//@ stubs: simd::has_avx2 / has_sse -> false (scalar kernels only)
+//@ encodes: compute_distance / compute_distance_simd for DotProduct and Manhattan, dimension 1
+//@ symbolic: two one-dimensional vectors (finite f32, |x| <= 2^20), possibly equal
+//@ bound: dim = 1
+//@ oracle: bit-exact agreement with the plain definitions (-(a*b) and |a-b|), including the self-distance case a == b
+#[kani::proof]
+#[kani::unwind(3)]
+#[kani::stub(grafeo_core::index::vector::simd::has_avx2, no_simd)]
+#[kani::stub(grafeo_core::index::vector::simd::has_sse, no_simd)]
+fn c18_distance_dim1_vs_definition() {
+    let a = [fin(1048576.0)]; let b = [fin(1048576.0)];
+    assert!(compute_distance(&a, &b, DistanceMetric::DotProduct).to_bits() == def_dist(DistanceMetric::DotProduct, a[0], b[0]).to_bits(), "dot-product distance differs from its definition");
+    assert!(compute_distance(&a, &b, DistanceMetric::Manhattan).to_bits() == def_dist(DistanceMetric::Manhattan, a[0], b[0]).to_bits(), "Manhattan distance differs from its definition");
+    kani::cover!(a[0] == b[0] && a[0] != 0.0);
+    kani::cover!(a[0] != b[0]);
 }
